@@ -11,6 +11,28 @@ sys.path.insert(0, os.path.join(V, "mutants"))
 import catalog  # noqa
 
 REPO = os.environ.get("PYVC_REPO", "/repo")
+FULL = "--full" in sys.argv
+
+
+def default_funcs(m):
+    """without --full: the functions under contract that are defined in the mutated file (plus the one named by `expect`, plus the
+    callers that inline accessors of that file); with --full: everything"""
+    if FULL:
+        return []
+    from pyvc import spec, src
+    if not getattr(default_funcs, "loaded", False):
+        src.load()
+        spec.load_contracts()
+        default_funcs.loaded = True
+    mod = m["file"][:-3].replace("/", ".")
+    quals = [q for q, c in spec.CONTRACTS.items() if not (c.abstract or c.trusted or q.startswith("ext.")) and "#canary" not in q]
+    out = [q for q in quals if q.split("#")[0].startswith(mod + ".")]
+    inliners = {"pyhms.demes.abstract_deme": ["pyhms.tree.", "pyhms.stop_conditions.", "pyhms.utils.print_tree."],
+                "pyhms.core.problem": ["pyhms.core.individual."], "pyhms.tree": ["pyhms.stop_conditions.", "pyhms.hms."],
+                "pyhms.demes.initialize": ["pyhms.tree.DemeTree._do_sprout", "pyhms.tree.DemeTree.__init__"]}
+    for pre in inliners.get(mod, []):
+        out += [q for q in quals if q.startswith(pre)]
+    return sorted(set(out)) or []
 sel = [a for a in sys.argv[1:] if not a.startswith("-")]
 muts = [m for m in catalog.M if not sel or m["id"] in sel or any(s in m["props"] for s in sel)]
 base = "/tmp/pyvc_mut"
@@ -27,7 +49,7 @@ for m in muts:
         shutil.rmtree(d, ignore_errors=True)
         continue
     open(f, "w").write(s.replace(m["old"], m["new"]))
-    out = subprocess.run(["python3-vt", "-m", "pyvc.verify"] + (m.get("funcs") or []), cwd=V, env=dict(os.environ, PYVC_REPO=d), capture_output=True, text=True).stdout
+    out = subprocess.run(["python3-vt", "-m", "pyvc.verify"] + (m.get("funcs") or default_funcs(m)), cwd=V, env=dict(os.environ, PYVC_REPO=d), capture_output=True, text=True).stdout
     failed, cur, errors = [], None, []
     for ln in out.splitlines():
         if ln.startswith("== "):
